@@ -67,7 +67,8 @@ def run_replayer(exe, args, trace, timeout=900, env=None, script=None):
     cur_script = args[0] if script is None else script
     all_segs = None
     done_segs = 0
-    for attempt in range(4):
+    crashes = 0
+    for attempt in range(40):
         a2 = [cur_script] + args[1:]
         if attempt > 0:
             e["VH_APPEND"] = "1"
@@ -77,6 +78,33 @@ def run_replayer(exe, args, trace, timeout=900, env=None, script=None):
         except subprocess.TimeoutExpired:
             rc, err = -99, "replayer timed out after %ss" % timeout
         if rc == 0:
+            break
+        if rc == -99:
+            # the time limit of one replayer process (a long tour, a slow machine) - every call has its own watchdog, so this says
+            # nothing about the code: drop the segment that was cut short and go on with it in a fresh process
+            if all_segs is None:
+                all_segs = _script_segments(args[0])
+            nres = 0
+            if os.path.exists(trace):
+                with open(trace, "rb") as f:
+                    data = f.read()
+                nres = data.count(b'{"op":"reset"')
+                cut = data.rfind(b'{"op":"reset"')
+                if cut >= 0:
+                    with open(trace, "wb") as f: f.write(data[:cut])
+                    nres -= 1
+            if nres <= done_segs and attempt > 0:
+                allerr.append(err); worst = rc
+                break                       # no progress within a whole time slice: give up (reported as infrastructure)
+            done_segs = nres
+            cur_script = args[0] + ".rest"
+            with open(cur_script, "w") as f:
+                for seg in all_segs[done_segs:]:
+                    f.write("reset\n")
+                    for l in seg: f.write(l + "\n")
+            continue
+        crashes += 1
+        if crashes > 4:
             break
         worst = rc
         allerr.append(err[-3000:])
@@ -102,7 +130,7 @@ def run_replayer(exe, args, trace, timeout=900, env=None, script=None):
         if all_segs is None:
             all_segs = _script_segments(args[0])
         done_segs = nres           # segments started so far (the last one died)
-        if done_segs >= len(all_segs) or rc == -99:
+        if done_segs >= len(all_segs):
             break
         cur_script = args[0] + ".rest"
         with open(cur_script, "w") as f:
@@ -172,6 +200,8 @@ def replay_and_validate(chk, variant, script, tagname, fmt_desc="", recheck=True
     trace = os.path.join(wd, "%s-%s.ndjson" % (tagname, variant.tag))
     if os.path.exists(trace): os.remove(trace)
     rc, err = run_replayer(exe, variant.args_fn(script, trace), trace, env=variant.env)
+    if rc == -99:
+        chk.infra.append("replayer %s/%s made no progress within its time limit" % (tagname, variant.tag))
     if not os.path.exists(trace):
         chk.infra.append("replayer %s produced no trace (rc=%s): %s" % (variant.tag, rc, err[-500:]))
         return dict(events=0, rejected=0)
